@@ -98,7 +98,7 @@ def _case(draw):
     err = draw(st.sampled_from([None] * 20 + ['len_at', 'len_gain', 'len_res', 'scalar_for_list', 'array_no_at']))
     return dict(spec=spec, container=container, form=form, sel=sel, spell=spell, over=over, err=err,
                 signed=signed, neg_cells=[[draw(st.integers(0, 19)), draw(st.integers(0, 5))] for _ in range(3)],
-                seq=draw(st.sampled_from(['list', 'list', 'tuple', 'nparr'])), derived=draw(st.sampled_from([None, None, None, ['slice', 1], ['slice', 2], ['list', 1]])),
+                seq=draw(st.sampled_from(['list', 'list', 'tuple', 'nparr'])), derived=draw(st.sampled_from([None, None, None, ['slice', 1], ['slice', 2], ['list', 1], ['perm', 1], ['permname', 2]])),
                 order_seed=draw(st.integers(0, 2 ** 16)))
 
 
